@@ -33,6 +33,10 @@ pub fn set_float(v: &mut Value, x: f64) {
 }
 
 fn small_period(r: &mut Rng, hi: u64) -> u64 {
+	// one draw in twenty: the upper half of an 8-bit period range (sign bit of an i8, PeriodType::MAX - 1), whatever the cap
+	if r.below(20) == 0 {
+		return [127u64, 128, 129, 200, 253, 254][r.usize_below(6)].min(PMAX - 1);
+	}
 	match r.below(10) {
 		0 => 1,
 		1 => 2,
@@ -64,7 +68,9 @@ pub fn mutate(cfg: &Value, r: &mut Rng, intensity: f64, max_period: u64, same_ki
 			Value::UnitVariant(e, var) if e == "Source" => {
 				if r.chance(intensity * 0.7) {
 					// price sources mostly; volume-based ones rarely
-					let k = if r.chance(0.1) { r.usize_below(8) } else { r.usize_below(6) };
+					// single precision: price x volume reaches 1e19 on spikes and its squares overflow (not a rounding effect)
+					let all = if cfg!(feature = "value_type_f32") { 7 } else { 8 };
+					let k = if r.chance(0.1) { r.usize_below(all) } else { r.usize_below(6) };
 					*var = SOURCE_SERDE_NAMES[k].to_string();
 				}
 			}
